@@ -9,6 +9,7 @@ pub mod c03;
 pub mod c04;
 pub mod c07;
 pub mod c09;
+pub mod c09burst;
 pub mod c08;
 pub mod c10;
 pub mod c12;
